@@ -1199,6 +1199,23 @@ example : 1 < (⟨[(⟨0.25⟩ : R), ⟨0.75⟩], [exComp ⟨0⟩ ⟨1⟩, exCom
 example : ∃ c, drawComp (⟨[(⟨0.25⟩ : R), ⟨0.75⟩], [exComp ⟨0⟩ ⟨1⟩, exComp ⟨1⟩ ⟨1⟩]⟩ : Mix R Unit) ⟨0.5⟩ = some c :=
   let ⟨c, h, _⟩ := drawComp_isSome _ rfl _ _ exDraw; ⟨c, h⟩
 
+-- @site Mixture.entropy
+/-- entropy of a Bernoulli mixture (as repaired): the negative of Σ_{x ∈ {true,false}} f(x) ln f(x), written through the
+    mixture's own `ln_f`; in particular it is non-negative whenever both masses are at most 1 -/
+theorem bernMixEntropy_val (m : Mix R Bool) :
+    (bernMixEntropy m).val
+      = -(Real.exp (Hand.Mixture.lnF m true).val * (Hand.Mixture.lnF m true).val
+          + Real.exp (Hand.Mixture.lnF m false).val * (Hand.Mixture.lnF m false).val) := by
+  simp only [bernMixEntropy, mulAdd, R.neg_val, R.add_val, R.mul_val, R.exp_val]
+
+-- @site Mixture.entropy
+theorem bernMixEntropy_nonneg (m : Mix R Bool) (ht : (Hand.Mixture.lnF m true).val ≤ 0) (hf : (Hand.Mixture.lnF m false).val ≤ 0) :
+    0 ≤ (bernMixEntropy m).val := by
+  rw [bernMixEntropy_val]
+  have h1 := mul_nonpos_of_nonneg_of_nonpos (Real.exp_pos (Hand.Mixture.lnF m true).val).le ht
+  have h2 := mul_nonpos_of_nonneg_of_nonpos (Real.exp_pos (Hand.Mixture.lnF m false).val).le hf
+  linarith
+
 end C11
 
 #print axioms C11.exMix_allMeanVar
@@ -1260,3 +1277,5 @@ end C11
 #print axioms C11.drawComp_isSome
 #print axioms C11.drawIndex_empty
 #print axioms C11.exDraw
+#print axioms C11.bernMixEntropy_val
+#print axioms C11.bernMixEntropy_nonneg
